@@ -132,7 +132,137 @@ def units(tier, seed):
   # more than ten entries): the containers are rebuilt by value, Variables keep their identity
   for cont in CONTAINER_GRAPHS:
     us.append(dict(kind='cont', progs=[], cont=cont))
+  # cached_partial over two cached arguments that alias each other
+  for g in CP2_GRAPHS:
+    us.append(dict(kind='cp2', progs=[], graph=g))
   return us
+
+
+CP2_GRAPHS = ['shared-var', 'shared-var-first', 'shared-node', 'same-object', 'disjoint']
+CP2_RETURNS = ['a-var', 'b-var', 'b-late-var', 'value']
+
+
+def _cp2_build(g):
+  import jax.numpy as jnp
+  from flax import nnx
+
+  class N(nnx.Module):
+    pass
+  P = lambda v: nnx.Param(jnp.full((2,), float(v)))
+  a, b = N(), N()
+  if g == 'shared-var':          # the shared Variable sorts before b's own Variables
+    e = P(1)
+    a.emb, b.emb, b.scale, b.zz = e, e, P(10), P(100)
+  elif g == 'shared-var-first':  # ... and after one of them
+    e = P(1)
+    a.w, b.aa, b.w, b.zz = e, P(10), e, P(100)
+  elif g == 'shared-node':
+    sub = N()
+    sub.w = P(1)
+    a.sub, b.sub, b.zz, a.own = sub, sub, P(100), P(5)
+  elif g == 'same-object':
+    a.w, a.zz = P(1), P(100)
+    b = a
+  else:
+    a.w, b.w, b.zz = P(1), P(10), P(100)
+  return a, b
+
+
+def _cp2_vars(o, seen=None, path=()):
+  from flax import nnx
+  out = {}
+  seen = seen if seen is not None else set()
+  if id(o) in seen:
+    return out
+  seen.add(id(o))
+  for k in sorted(vars(o)):
+    if k.startswith('_'):
+      continue
+    v = getattr(o, k)
+    if isinstance(v, nnx.Variable):
+      out[path + (k,)] = v
+    elif isinstance(v, nnx.Module):
+      out.update(_cp2_vars(v, seen, path + (k,)))
+  return out
+
+
+def _cp2_step(ret):
+  def step(a, b, x):
+    va, vb = _cp2_vars(a), _cp2_vars(b)
+    ka, kb = sorted(va), sorted(vb)
+    va[ka[0]].value = va[ka[0]].value + x
+    vb[kb[-1]].value = vb[kb[-1]].value * 2.0 + vb[kb[0]].value
+    if ret == 'a-var':
+      return va[ka[-1]]
+    if ret == 'b-var':
+      return vb[kb[0]]
+    if ret == 'b-late-var':
+      return vb[kb[-1]]
+    return vb[kb[-1]].value.sum() + va[ka[0]].value.sum()
+  return step
+
+
+def _run_cp2(res, g):
+  import numpy as np
+  import jax.numpy as jnp
+  from flax import nnx
+  for ret in CP2_RETURNS:
+    step = _cp2_step(ret)
+    ea, eb = _cp2_build(g)
+    ta, tb = _cp2_build(g)
+    key = f'{g}|{ret}'
+    case = dict(graph=g, ret=ret)
+    try:
+      cached = nnx.cached_partial(nnx.jit(step), ta, tb)
+    except Exception as e:  # noqa
+      core.violation(res, f'cp2-raises|{key}|build', f'{type(e).__name__}: {str(e)[:200]}', case)
+      continue
+    for call in range(3):
+      x = jnp.full((2,), float(call + 1))
+      res['evals'] += 1
+      res['transitions'] += 1
+      eo = step(ea, eb, x)
+      try:
+        to = cached(x)
+      except Exception as e:  # noqa
+        core.violation(res, f'cp2-raises|{key}|call{call}', f'{type(e).__name__}: {str(e)[:200]}',
+                       case)
+        break
+      ev = {('a',) + p: v for p, v in _cp2_vars(ea).items()}
+      ev.update({('b',) + p: v for p, v in _cp2_vars(eb).items()})
+      tv = {('a',) + p: v for p, v in _cp2_vars(ta).items()}
+      tv.update({('b',) + p: v for p, v in _cp2_vars(tb).items()})
+      bad = [p for p in ev if not np.array_equal(np.asarray(ev[p].value), np.asarray(tv[p].value))]
+      if bad:
+        core.violation(res, f'cp2-state|{key}|call{call}',
+                       f'Variables {bad} of the caller\'s objects differ from eager', case)
+      if isinstance(eo, nnx.Variable):
+        if not isinstance(to, nnx.Variable) or not np.array_equal(np.asarray(eo.value),
+                                                                  np.asarray(to.value)):
+          core.violation(res, f'cp2-ret|{key}|call{call}',
+                         'returned Variable differs from eager (wrong object or value)', case,
+                         observed=np.asarray(getattr(to, 'value', to)).tolist(),
+                         expected=np.asarray(eo.value).tolist())
+        else:
+          # the returned Variable must be the one at the same path as in eager
+          ep = [p for p, v in ev.items() if v is eo]
+          tp = [p for p, v in tv.items() if v is to]
+          if sorted(ep) != sorted(tp):
+            core.violation(res, f'cp2-ret-identity|{key}|call{call}',
+                           f'eager returned the Variable at {ep}, the transformed call the one '
+                           f'at {tp}', case)
+      elif float(np.asarray(eo)) != float(np.asarray(to)):
+        core.violation(res, f'cp2-ret|{key}|call{call}', 'returned value differs from eager', case)
+      # aliasing between the caller's objects is preserved
+      ealias = sorted((p, q) for p in ev for q in ev if p < q and ev[p] is ev[q])
+      talias = sorted((p, q) for p in tv for q in tv if p < q and tv[p] is tv[q])
+      if ealias != talias:
+        core.violation(res, f'cp2-alias|{key}|call{call}', 'aliasing between the arguments changed',
+                       case)
+    core.outcome(res, 'cp2:ok')
+    res['nontrivial'].append(core.h(['cp2', key]))
+  res['states'] += 1
+  res['samples'].append(dict(kind='cp2', graph=g, returns=CP2_RETURNS))
 
 
 CONTAINER_GRAPHS = ['dict-unsorted', 'dict-int', 'list12', 'dict+shared']
@@ -696,6 +826,9 @@ def run_unit(unit):
   res = core.new_result()
   if unit['kind'] == 'cont':
     _run_cont(res, unit['cont'])
+    return res
+  if unit['kind'] == 'cp2':
+    _run_cp2(res, unit['graph'])
     return res
   ctx = _Ctx(res)
   for p in unit['progs']:
